@@ -64,7 +64,7 @@ theorem genesisRepo_wf : RepoWF genesisRepo := by
 
 
 theorem genesisRepo_streamWF : StreamWF genesisRepo := by
-  refine ⟨⟨genesisRepo_wf, ?_, ?_⟩, ?_⟩
+  refine ⟨⟨genesisRepo_wf, ?_, ?_⟩, ?_, ?_⟩
   · intro bi b p hb hpar
     obtain ⟨rfl, rfl⟩ := genesisRepo_get bi b hb
     simp [genesisRepo] at hpar
@@ -74,6 +74,8 @@ theorem genesisRepo_streamWF : StreamWF genesisRepo := by
   · intro bi b p pbr hb hpar _
     obtain ⟨rfl, rfl⟩ := genesisRepo_get bi b hb
     simp [genesisRepo] at hpar
+  · intro bi b hb _
+    exact (genesisRepo_get bi b hb).1
 
 theorem genesisRepo_chain : IsChain genesisRepo.arena genesisRepo.longest [{ id := 0, prev := 99, bits := 0x1d00ffff, time := 1 }] := by
   refine ⟨genesisRepo.arena[0], rfl, by decide, ?_⟩
